@@ -464,6 +464,14 @@ static int parse_align(AsmContext *asm_context, int num)
     return -1;
   }
 
+  // An alignment of 0 bytes (or less) would make the loop below run until
+  // the location counter wraps around.
+  if (num < 1)
+  {
+    print_error(asm_context, "align constant too small");
+    return -1;
+  }
+
   mask = num - 1;
 
   while ((asm_context->address & mask) != 0)
